@@ -8,6 +8,7 @@ pub mod parsers;
 pub mod renumber_drive;
 pub mod reader_hist;
 pub mod replay_reader;
+pub mod replay_writer;
 pub mod roundtrip;
 pub mod scan_vectors;
 pub mod sink;
